@@ -155,7 +155,7 @@ PROPS = {
         corr=[dict(family="ctx", quick=300, thorough=8000, mismatch_is_violation=True,
                    nontrivial=has("simultaneous", "both_pre", "primary_pre", "other_pre", "nil_other", "nil_primary", "all_inputs_cancelled",
                                   "cancelfn", "some_pre", "all_pre", "cancel_between_precheck_and_registration", "never_other", "never_input",
-                                  "input_cancelled_after_wiring_during_build", "input_cancelled_before_its_check", "primary_cancelled_during_build"),
+                                  "input_cancelled_after_wiring_during_build", "input_cancelled_before_its_check", "primary_cancelled_during_build", "chain_storm", "chain_over_wrapper_context", "immediate_state_checked"),
                    rule="ctx: ChainAfterFunc / CombineContext / ConflatedContext built over 0-4 inputs (live, already cancelled, nil), then cancelled in "
                         "every generated order incl. simultaneously (goroutines behind a barrier); Err() of the result / the call counter of the chained "
                         "function read after quiescence (stable over several reads) and compared with the Lean transition systems run to quiescence; the "
